@@ -205,32 +205,33 @@ def super_init_args(func, model):
 
 
 def find_diag_store(ctx):
+    """the statement that stores into self.Z in compute_impedance_matrix_loads (any form)"""
     m = ctx.model
     f = m.func(LOADS)
     fl = ctx.flow(f)
-    store = None
+    stores = []
     for n in fl.cfg.nodes:
         s_ = n.stmt
-        if n.kind == 'stmt' and isinstance(s_, ast.AugAssign) and isinstance(s_.op, ast.Add):
-            t = s_.target
+        if n.kind == 'stmt' and isinstance(s_, (ast.AugAssign, ast.Assign)):
+            t = s_.target if isinstance(s_, ast.AugAssign) else s_.targets[0]
             idx = []
             while isinstance(t, ast.Subscript):
                 idx = ([norm(x) for x in t.slice.elts] if isinstance(t.slice, ast.Tuple) else [norm(t.slice)]) + idx
                 t = t.value
-            if dotted(t) == 'self.Z' and len(idx) == 2 and idx[0] == idx[1]:
-                store = n
-    if store is None:
-        raise AnalysisError('no `self.Z[j][j] += ...` found in compute_impedance_matrix_loads')
+            if dotted(t) == 'self.Z' and idx:
+                stores.append((n, idx))
+    if len(stores) != 1:
+        raise AnalysisError('compute_impedance_matrix_loads: expected one store into self.Z, found %d' % len(stores))
+    store, idx = stores[0]
     st = store.stmt
-    j = st.target.slice
-    jn = norm(j if not isinstance(j, ast.Tuple) else j.elts[0])
+    jn = idx[0]
     jd = fl.single_def(jn, store.id) if jn.isidentifier() else None
-    return f, fl, store, st, jd
+    return f, fl, store, st, jd, idx
 
 
 def check_weights(ctx, ck):
     m = ctx.model
-    f, fl, store, st, jd = find_diag_store(ctx)
+    f, fl, store, st, jd, _idx = find_diag_store(ctx)
     def is_imp(tx):
         return '.impedance(' in tx
     l_alts = split_weight(weight_alternatives(fl, st.value, store.id), is_imp)
@@ -243,6 +244,33 @@ def check_weights(ctx, ck):
         raise AnalysisError('compute_rhs: expected one element store, found %d' % len(rstores))
     r_alts = split_weight(weight_alternatives(gfl, rstores[0].stmt.value, rstores[0].id),
                           lambda tx: tx.endswith('.voltage'))
+
+    # every definition of a weight factor that reaches the store lies in the same (innermost)
+    # loop body as the store: the weight is recomputed for every element and cannot carry the
+    # doubling of a previous (grounded) element over to the next one
+    def stale_defs(fl_, store_node):
+        from ..model import parent as _parent
+        st_ = store_node.stmt
+        lp = _parent(st_)
+        while lp is not None and not isinstance(lp, (ast.For, ast.While)):
+            lp = _parent(lp)
+        if lp is None:
+            return []
+        body_ids = fl_.cfg.loops[fl_.cfg.node_of(lp)][0]
+        out = []
+        pr_ = product_of(st_.value)
+        for t_, x_ in pr_.num + pr_.den:
+            if isinstance(x_, ast.Name) and x_.id in fl_.rd.names:
+                for d_ in fl_.def_exprs(x_.id, store_node.id):
+                    if d_[0] in ('assign', 'aug') and d_[2] not in body_ids:
+                        out.append((x_.id, d_[2]))
+        return out
+    for who, fl_, node_ in (('load', fl, store), ('source', gfl, rstores[0])):
+        bad_ = stale_defs(fl_, node_)
+        ck.ob('R-SIB.weight', 'weight-per-element|%s' % who, not bad_, (f if who == 'load' else g).loc(node_.stmt),
+              'the %s weight is initialised inside the loop over the elements' % who if not bad_ else
+              'weight factor %s is initialised outside the loop: the doubling for a grounded pulse leaks '
+              'into the following elements' % sorted({b[0] for b in bad_}))
 
     def summarize(alts):
         base = [a for a in alts if not a[3]]
@@ -314,40 +342,26 @@ def run(ctx, ck):
     ls = [l for l in loops_in(f.node) if isinstance(l, ast.For)]
     outer = [l for l in ls if norm(l.iter) == 'self.loads']
     ck.floor('loops over self.loads', len(outer), 1)
-    store = None
+    f, fl, store, st, jd, idx = find_diag_store(ctx)
+    is_acc = isinstance(st, ast.AugAssign) and isinstance(st.op, ast.Add)
+    ck.ob('R-EXH.diagonal', LOADS + '|accumulates', is_acc, f.loc(st),
+          'loads are added to the matrix with += (several loads on a pulse add up)' if is_acc else
+          'the load term is stored with `%s`, not accumulated with +=' % norm(st)[:60])
+    ck.ob('R-EXH.diagonal', LOADS + '|diagonal-element', len(idx) == 2 and idx[0] == idx[1], f.loc(st),
+          'element Z[%s] is on the diagonal' % ', '.join(idx) if len(idx) == 2 and idx[0] == idx[1] else
+          'element Z[%s] is not a diagonal element' % ', '.join(idx))
     for ol in outer:
         inner = [l for l in loops_in(ol) if isinstance(l, ast.For)]
         lv = ol.target.id if isinstance(ol.target, ast.Name) else '?'
-        inner = [l for l in inner if norm(l.iter) == '%s.pulses' % lv]
-        ck.ob('R-EXH.diagonal', LOADS + '|loops', len(inner) == 1, f.loc(ol),
-              'for every load, for every pulse of the load')
+        full = [l for l in inner if norm(l.iter) == '%s.pulses' % lv]
+        ck.ob('R-EXH.diagonal', LOADS + '|loops', len(full) == 1, f.loc(ol),
+              'for every load, for every pulse of the load' if len(full) == 1 else
+              'inner loop iterates %s, not all pulses of the load' % [norm(l.iter) for l in inner])
         for il in inner:
-            def is_diag_add(n):
-                s = n.stmt
-                if not (n.kind == 'stmt' and isinstance(s, ast.AugAssign) and isinstance(s.op, ast.Add)):
-                    return False
-                t = s.target
-                idx = []
-                while isinstance(t, ast.Subscript):
-                    if isinstance(t.slice, ast.Tuple):
-                        idx = [norm(x) for x in t.slice.elts] + idx
-                    else:
-                        idx = [norm(t.slice)] + idx
-                    t = t.value
-                return dotted(t) == 'self.Z' and len(idx) == 2 and idx[0] == idx[1]
-            mn, mx = loop_reaches_on_all_paths(fl, il, is_diag_add)
+            mn, mx = loop_reaches_on_all_paths(fl, il, lambda n: n is store)
             ck.ob('R-EXH.diagonal', LOADS + '|one-add-per-pulse', (mn, mx) == (1, 1), f.loc(il),
-                  'diagonal `+=` per (load, pulse): min %s max %s' % (mn, mx))
-            for n in fl.cfg.nodes:
-                if n.stmt is not None and is_diag_add(n):
-                    store = n
-    if store is None:
-        raise AnalysisError('no `self.Z[j][j] += ...` found in compute_impedance_matrix_loads')
-    st = store.stmt
-    t = st.target
-    j = t.slice
-    jn = norm(j if not isinstance(j, ast.Tuple) else j.elts[0])
-    jd = fl.single_def(jn, store.id) if jn.isidentifier() else None
+                  'matrix update per (load, pulse): min %s max %s' % (mn, mx))
+    jn = idx[0]
     ok = jd is not None and isinstance(jd[0], ast.Attribute) and jd[0].attr == 'idx'
     ck.ob('R-EXH.diagonal', LOADS + '|index=pulse.idx', ok, f.loc(st),
           'diagonal index %s = %s' % (jn, norm(jd[0]) if jd else '?'))
@@ -499,14 +513,16 @@ def run(ctx, ck):
     d = pi.defaults().get('yield_ends')
     ok = isinstance(d, ast.Constant) and d.value is True and 'self.pulses' in ' '.join(norm(l.iter) for l in loops_in(pi.node))
     ck.ob('R-EXH.attach', pi.qual, ok, pi.loc(), 'pulse_iter() default yields all of self.pulses incl. junction pulses')
-    regs = [n for n in walk_no_nested(rl.node) if isinstance(n, ast.If) and norm(n.test) == 'load.n is None']
-    ok = len(regs) >= 1
-    for r_ in regs:
-        tx = [norm(s) for s in r_.body]
-        ok = ok and tx == ['load.n = len(self.loads)', 'self.loads.append(load)']
-    # every path that attaches a pulse also registers
+    apps = [c for c in walk_no_nested(rl.node) if isinstance(c, ast.Call) and isinstance(c.func, ast.Attribute)
+            and c.func.attr == 'append' and norm(c.func.value) == 'self.loads']
+    nums = [s_ for s_ in walk_no_nested(rl.node) if isinstance(s_, ast.Assign) and norm(s_.targets[0]) == 'load.n']
+    ok = len(apps) >= 1 and len(apps) == len(nums)
+    for c in apps + nums:
+        g = [t for t, b in if_chain_preds(rfl2.cfg, rfl2.node_id_of(c)) if b]
+        ok = ok and 'load.n is None' in g
+    ok = ok and all(norm(s_.value) == 'len(self.loads)' for s_ in nums)
     ck.ob('R-EXH.attach', rl.qual + '|register-once', ok, rl.loc(),
-          'load numbered by len(self.loads) and appended only when not yet registered (%d sites)' % len(regs))
+          'a load is numbered len(self.loads) and appended only under `load.n is None` (%d sites)' % len(apps))
     ap = m.func('mininec._Load.add_pulse')
     ok = [norm(s) for s in ap.body()] == ['self.pulses.append(pulse)']
     ck.ob('R-EXH.attach', ap.qual, ok, ap.loc(), 'add_pulse appends the pulse once')
